@@ -20,7 +20,7 @@ ASSUMPTIONS = ['the cut is by day, as in the statement (same-day look-ahead is c
 
 
 def plan(tier, seed):
-    return _common.split(seed, 16, 352 if tier == 'quick' else 12000, 90 if tier == 'quick' else 1700)
+    return _common.split(seed, 16, 272 if tier == 'quick' else 12000, 90 if tier == 'quick' else 1700)
 
 
 def run_shard(spec, acc):
